@@ -441,3 +441,21 @@ Definition class_D34 (cs : cluster) (q : request) : bool :=
                                     (match q_sni q with Some s => s | None => "" end))
               (valid_listeners_on cs g (q_port q))
   end.
+
+(* class of finding D33: somewhere an HTTPRoute match and a GRPCRoute match share port, hostname and path *)
+Definition has_mixed_group (cs : cluster) : bool :=
+  match winning_gateway cs with
+  | None => false
+  | Some g =>
+      existsb (fun l0 =>
+        let binds := port_bindings cs g (l_port l0) in
+        existsb (fun b1 =>
+          existsb (fun b2 =>
+            seqb (fst (fst b1)) (fst (fst b2)) &&
+            match rt_kind (snd b1), rt_kind (snd b2) with
+            | KHTTP, KGRPC =>
+                existsb (fun c1 => existsb (fun c2 => pathm_eqb (hm_path (cd_match c1)) (hm_path (cd_match c2)))
+                                           (route_cands (snd b2))) (route_cands (snd b1))
+            | _, _ => false
+            end) binds) binds) (g_listeners g)
+  end.
